@@ -11,6 +11,9 @@ From Fiano Require Import Base.Bytes Base.BytesLemmas Base.GoInt Gen.Consts Gen.
 From Coq Require Import ZifyBool ZifyNat.
 Open Scope Z_scope.
 
+(* a changed kernel must make a tie lemma FAIL, not make a conversion check run for an hour *)
+Set Default Timeout 120.
+
 Lemma go_FlashRegion_Valid_tie base limit :
   go_FlashRegion_Valid limit base = TightenMe.fr_valid (mkFR base limit).
 Proof. reflexivity. Qed.
